@@ -219,6 +219,12 @@ func (x *Exec) topReturn(st *State, fr *Frame, rs []Val, ins *ssa.Return) {
 		}
 	}
 	src := x.prog.Fset.Position(ins.Pos()).String()
+	var rts []*Term
+	for i, r := range rs {
+		rts = append(rts, x.term(st, r, res.At(i).Type()))
+	}
+	x.pendingReplay = x.replayInfo(st, rts, "returns")
+	defer func() { x.pendingReplay = nil }()
 	if len(vc.spec.ReturnHints) > 0 {
 		henv := x.entryEnv(st)
 		henv.fr = fr
